@@ -164,6 +164,18 @@ class World:
             self.by_ident[(grp, ident)] = i
         e = dict(kind=kind, str=False, name=obj.name, obj=obj)
         bound = isinstance(obj, sf.FortranBoundProcedure)
+        nm = (obj.name or "").lower()
+        if kind in ("KMod", "KSubmod"):
+            e["key"] = ("mod", nm)
+        elif kind == "KProc":
+            if bound:
+                e["key"] = ("bound", nm, (getattr(getattr(obj, "parent", None), "name", "") or "").lower())
+            elif isinstance(obj, sf.FortranInterface):
+                e["key"] = ("iface", nm)
+            else:
+                e["key"] = ("proc", nm)
+        else:
+            e["key"] = ({"KType": "type", "KProg": "prog", "KBlock": "block", "KFile": "file"}[kind], nm)
         if kind == "KProc":
             if bound:
                 binder = getattr(obj, "parent", None)
@@ -215,10 +227,64 @@ class World:
             e["deps"] = deps
         return e
 
-    def term(self):
+    def gen_world(self, rel):
+        """A second world: same entities and non-relational attributes (kind, names, visible, bound, proctype)
+        as read from FORD, but every relation field taken from [rel], the relation the generator wrote into
+        the source (harness.gen.graphs.declared).  Entities FORD has and the generator does not know get no
+        relations; entities the generator declares and FORD lacks get fresh ids."""
+        keyid = {}
+        for i, e in self.ents.items():
+            if e.get("key") is not None and e["key"] not in keyid:
+                keyid[e["key"]] = i
+        ents = {}
+        nxt = [max(self.ents, default=0)]
+        strid = {k[1:]: i for k, i in self.ids.items() if k[0] == "str"}
+        todo = []
+
+        def ref(r):
+            if r is None:
+                return None
+            if r[0] == "str":
+                key = (r[1], r[2])
+                if key not in strid:
+                    nxt[0] += 1
+                    strid[key] = nxt[0]
+                    kind = {"mod": "KMod", "type": "KType", "proc": "KProc", "file": "KFile"}[r[1]]
+                    ents[nxt[0]] = dict(kind=kind, str=True, name=r[2])
+                return strid[key]
+            if r not in keyid:
+                nxt[0] += 1
+                keyid[r] = nxt[0]
+                kind = {"mod": "KMod", "type": "KType", "proc": "KProc", "iface": "KProc", "bound": "KProc",
+                        "prog": "KProg", "block": "KBlock", "file": "KFile"}[r[0]]
+                todo.append((nxt[0], dict(kind=kind, str=False, name=r[1], key=r, bound=r[0] == "bound",
+                                          proctype="Interface" if r[0] == "iface" else "")))
+            return keyid[r]
+        for i, e in self.ents.items():
+            todo.append((i, e))
+        while todo:
+            i, e = todo.pop()
+            g = dict(e)
+            for f in ("uses", "anc", "comps", "calls", "bindings", "modprocs", "modimpl", "deps"):
+                g.pop(f, None)
+            d = rel.get(e.get("key")) if not e["str"] else None
+            if d is not None and keyid.get(e["key"]) == i:
+                g["uses"] = [ref(x) for x in d["uses"]]
+                g["anc"] = ref(d["anc"])
+                g["comps"] = [(vt, ref(pr), n) for vt, pr, n in d["comps"]]
+                g["calls"] = [ref(x) for x in d["calls"]]
+                g["bindings"] = [ref(x) for x in d["bindings"]]
+                g["modprocs"] = [ref(x) for x in d["modprocs"]]
+                g["modimpl"] = ref(d["modimpl"])
+                g["deps"] = [ref(x) for x in d["deps"]]
+            ents[i] = g
+        return ents, keyid
+
+    def term(self, ents=None):
         out = []
-        for i in sorted(self.ents):
-            e = self.ents[i]
+        ents = self.ents if ents is None else ents
+        for i in sorted(ents):
+            e = ents[i]
             comps = coq_list(f"({coq_str(vt)}, {coq_opt(p, str)}, {coq_str(n)})" for vt, p, n in e.get("comps", []))
             out.append(
                 f"({i}, mkEnt {e['kind']} {coq_bool(e['str'])} {coq_str(e['name'] or '')} "
